@@ -6,6 +6,7 @@ import (
 	"testing"
 
 	"github.com/go-text/typesetting/font"
+	"github.com/go-text/typesetting/font/opentype/tables"
 	"pgregory.net/rapid"
 
 	"verif/internal/ev"
@@ -32,7 +33,11 @@ const (
 )
 
 type faceOp struct {
-	Kind string   `json:"kind"` // query | set_variations | set_coords | set_ppem | burst
+	// query | set_variations | set_coords | set_ppem | burst |
+	// save_coords (keep the slice Coords() returns) | restore_coords (SetCoords of kept slice Saved, on this
+	// face: any face of the font) | set_coords_kept / set_design_kept (SetCoords with a slice the case keeps:
+	// its own, or the result of NormalizeVariations)
+	Kind string   `json:"kind"`
 	Face int      `json:"face"` // 0 or 1
 	GIDs []uint32 `json:"gids,omitempty"`
 	What int      `json:"what,omitempty"` // bit set of q* constants
@@ -57,6 +62,7 @@ type faceMachine struct {
 	faces [2]*font.Face
 	cfgs  [2]faceCfg
 
+	store   coordsStore
 	queried map[string]string // face/gid -> cfg key at the last query
 	flags   map[string]bool
 	queries int
@@ -87,13 +93,13 @@ type faceAnswers struct {
 	Origins   [][4]int32
 	OriginsOK [][2]bool
 	PpemX, PpemY uint16
-	NCoords      int
+	Coords       []tables.Coord // the getter, by value
 }
 
 func ask(f *font.Face, gids []uint32, what int) faceAnswers {
 	var a faceAnswers
 	a.PpemX, a.PpemY = f.Ppem()
-	a.NCoords = len(f.Coords())
+	a.Coords = append([]tables.Coord(nil), f.Coords()...)
 	for _, g := range gids {
 		gid := font.GID(g)
 		if what&qExtents != 0 {
@@ -134,8 +140,18 @@ func (m *faceMachine) apply(op faceOp) {
 		m.t.Fatalf("infrastructure: bad face index in replayed case")
 	}
 	k := op.Face
+	if roundTripKinds[op.Kind] {
+		if _, err := m.store.apply(op.Kind, op.cfgOp, m.faces[k], &m.cfgs[k], len(m.pf.Axes)); err != nil {
+			m.t.Fatalf("infrastructure: %v in replayed case", err)
+		}
+		m.flags["round_trip:"+op.Kind] = true
+		return
+	}
 	switch op.Kind {
 	case "set_variations", "set_coords", "set_ppem":
+		if op.MutateAfter {
+			m.flags["caller_slice_mutated_after_call"] = true
+		}
 		if op.Kind == "set_coords" && len(op.Coords) != 0 && len(op.Coords) != len(m.pf.Axes) {
 			m.t.Fatalf("infrastructure: coords of the wrong length in replayed case")
 		}
@@ -292,7 +308,7 @@ func TestPropFace(t *testing.T) {
 			m.apply(op)
 		})
 		weighted(actions, "set_variations", 1, func(rt *rapid.T) {
-			m.apply(faceOp{Kind: "set_variations", Face: drawFaceIdx(rt), cfgOp: cfgOp{Vars: drawVars(rt, pf)}})
+			m.apply(faceOp{Kind: "set_variations", Face: drawFaceIdx(rt), cfgOp: cfgOp{Vars: drawVars(rt, pf), MutateAfter: rapid.IntRange(0, 2).Draw(rt, "mutateAfter") == 0}})
 		})
 		weighted(actions, "set_coords", 1, func(rt *rapid.T) {
 			m.apply(faceOp{Kind: "set_coords", Face: drawFaceIdx(rt), cfgOp: cfgOp{Coords: drawCoords(rt, pf)}})
@@ -300,6 +316,49 @@ func TestPropFace(t *testing.T) {
 		weighted(actions, "set_ppem", 1, func(rt *rapid.T) {
 			x, y := drawPpem(rt)
 			m.apply(faceOp{Kind: "set_ppem", Face: drawFaceIdx(rt), cfgOp: cfgOp{PpemX: x, PpemY: y}})
+		})
+		query := func(k int) faceOp {
+			return faceOp{Kind: "query", Face: k, GIDs: hot, What: qExtents | qHAdvance | qVAdvance | qFontExtents}
+		}
+		weighted(actions, "round_trip", 2, func(rt *rapid.T) {
+			// coordinates read from a face (or kept by the caller) and fed back to the same or the sibling face
+			k := drawFaceIdx(rt)
+			other := faceOp{Kind: "set_variations", Face: k, cfgOp: cfgOp{Vars: drawVars(rt, pf), MutateAfter: rapid.Bool().Draw(rt, "mutateAfter")}}
+			switch rapid.IntRange(0, 3).Draw(rt, "scenario") {
+			case 0: // save, change, restore
+				m.apply(faceOp{Kind: "save_coords", Face: k})
+				m.apply(other)
+				if rapid.Bool().Draw(rt, "queryBetween") {
+					m.apply(query(k))
+				}
+				m.apply(faceOp{Kind: "restore_coords", Face: k, cfgOp: cfgOp{Saved: len(m.store.saved) - 1}})
+				m.apply(query(k))
+			case 1: // transfer to the sibling, then move the source on
+				m.apply(faceOp{Kind: "save_coords", Face: k})
+				m.apply(faceOp{Kind: "restore_coords", Face: 1 - k, cfgOp: cfgOp{Saved: len(m.store.saved) - 1}})
+				m.apply(query(1 - k))
+				m.apply(other)
+				m.apply(query(1 - k))
+				m.apply(query(k))
+			case 2: // a slice of the caller: set, change through another setter, set the same slice again
+				if len(pf.Axes) > 0 && rapid.Bool().Draw(rt, "normalized") {
+					m.apply(faceOp{Kind: "set_design_kept", Face: k, cfgOp: cfgOp{Design: drawDesign(rt, pf)}})
+				} else {
+					m.apply(faceOp{Kind: "set_coords_kept", Face: k, cfgOp: cfgOp{Coords: drawCoords(rt, pf)}})
+				}
+				m.apply(query(k))
+				m.apply(other)
+				m.apply(faceOp{Kind: "restore_coords", Face: rapid.IntRange(0, 1).Draw(rt, "onto"), cfgOp: cfgOp{Saved: len(m.store.saved) - 1}})
+				m.apply(query(0))
+				m.apply(query(1))
+			default: // any slice kept so far, onto any face
+				if len(m.store.saved) == 0 {
+					m.apply(faceOp{Kind: "save_coords", Face: k})
+					return
+				}
+				m.apply(faceOp{Kind: "restore_coords", Face: k, cfgOp: cfgOp{Saved: rapid.IntRange(0, len(m.store.saved)-1).Draw(rt, "saved")}})
+				m.apply(query(k))
+			}
 		})
 		weighted(actions, "burst", 1, func(rt *rapid.T) {
 			// query, many settings changes in one step, the same query again (the enumerator
@@ -369,6 +428,90 @@ func TestEnumFaceWrap(t *testing.T) {
 				m.apply(faceOp{Kind: "query", Face: 1, GIDs: gids, What: qExtents})
 				m.finish()
 				ev.Label("face:enum_wrap_cases")
+			}
+		}
+	}
+}
+
+// TestEnumFaceRoundTrips runs the getter -> setter scenarios deterministically on every variable font
+// of the pool: save/change/restore on one face, transfer to the sibling then change of the source,
+// and a caller-kept slice (plain, or the result of NormalizeVariations) set again after another
+// setter, each with the intermediate change made by SetVariations or by SetCoords.
+func TestEnumFaceRoundTrips(t *testing.T) {
+	shard, nshards := ev.Shard()
+	idx := 0
+	for _, file := range varPool {
+		pf := mustFont(t, fontRef{File: file})
+		gids := pf.GIDs
+		if len(gids) > 6 {
+			gids = append(append([]uint32{}, gids[:3]...), gids[len(gids)/2], gids[len(gids)-2], gids[len(gids)-1])
+		}
+		n := len(pf.Axes)
+		mk := func(first int16, rest int16) []int16 {
+			c := make([]int16, n)
+			for i := range c {
+				c[i] = rest
+			}
+			c[0] = first
+			return c
+		}
+		vars := func(f func(a axis) float32) []varSetting {
+			var out []varSetting
+			for _, a := range pf.Axes {
+				out = append(out, varSetting{Tag: a.Tag.String(), Value: f(a)})
+			}
+			return out
+		}
+		lo := vars(func(a axis) float32 { return a.Min })
+		hi := vars(func(a axis) float32 { return a.Max })
+		design := make([]float32, n)
+		for i, a := range pf.Axes {
+			design[i] = a.Min + (a.Max-a.Min)/4
+		}
+		for scenario := 0; scenario < 3; scenario++ {
+			for _, firstBy := range []string{"set_variations", "set_coords", "set_coords_kept", "set_design_kept"} {
+				for _, changeBy := range []string{"set_variations", "set_coords"} {
+					idx++
+					if idx%nshards != shard {
+						continue
+					}
+					m := newFaceMachine(t, pf.Ref)
+					q := func(k int) { m.apply(faceOp{Kind: "query", Face: k, GIDs: gids, What: qAll}) }
+					m.apply(faceOp{Kind: firstBy, cfgOp: cfgOp{Vars: lo, Coords: mk(-16384, 8192), Design: design}})
+					if firstBy == "set_variations" {
+						m.apply(faceOp{Kind: firstBy, cfgOp: cfgOp{Vars: lo}}) // the second call on a face that has coordinates
+					}
+					q(0)
+					change := faceOp{Kind: changeBy, cfgOp: cfgOp{Vars: hi, Coords: mk(16384, -8192)}}
+					switch scenario {
+					case 0:
+						m.apply(faceOp{Kind: "save_coords"})
+						m.apply(change)
+						q(0)
+						m.apply(faceOp{Kind: "restore_coords", cfgOp: cfgOp{Saved: len(m.store.saved) - 1}})
+						q(0)
+					case 1:
+						m.apply(faceOp{Kind: "save_coords"})
+						m.apply(faceOp{Kind: "restore_coords", Face: 1, cfgOp: cfgOp{Saved: len(m.store.saved) - 1}})
+						q(1)
+						m.apply(change)
+						q(1)
+						q(0)
+					default:
+						if len(m.store.saved) == 0 {
+							m.apply(faceOp{Kind: "save_coords"})
+						}
+						m.apply(change)
+						m.apply(faceOp{Kind: "restore_coords", cfgOp: cfgOp{Saved: 0}})
+						q(0)
+						m.apply(change)
+						m.apply(faceOp{Kind: "restore_coords", Face: 1, cfgOp: cfgOp{Saved: 0}})
+						q(1)
+						q(0)
+					}
+					m.finish()
+					ev.Label("face:enum_round_trip_cases")
+				}
 			}
 		}
 	}
